@@ -18,6 +18,7 @@ import DracoProofs.EbFinal7
 import DracoProofs.EbNoSLink
 import DracoProofs.EbTraceS4
 import DracoProofs.EbConnGlueS2
+import DracoProofs.EbWithSLink
 import DracoProofs.EbStartFaceCount
 import DracoProofs.EbCTIsoComplete
 /-
@@ -1307,6 +1308,61 @@ example : DecSim.annConn.splits.size = 1 ∧
       (DecSim.StS DecSim.annConn.symbols.toList.reverse DecSim.annConn.splits.toList.reverse DecSim.annConn.processed.size 19
         DecSim.annConn.symbols.toList.reverse.length).opp :=
   DecSim.annulusPure
+
+/-- **eb_connectivity_roundtrip_withS_boundary_partial** — the connectivity link WITH S symbols and topology split events
+    (standard traversal, no attribute data, boundary start faces), `DecLoopIsoS` INSTANTIATED from its parts
+    (`DecSim.decLoopIsoS_of_parts`: `connMain_StS` + `connStart_ok` + the compaction + `ctIso_StS_closed` +
+    `Compact.ctIso_compact`).  Hypotheses left, each named:
+    * decoder's domain checks `hnf`, `hnv`, `hedge`, `hsz2`;
+    * ENCODER side `hTr : TraceS …` (the abstract trace with S; from the run: `EncTraceS2.traceS_of_run_boundary` proves it GIVEN
+      `hwit` (a witness corner for `¬ FanEarlier` at every S), `hnoev` (the no-event left neighbour) and `hcomps`; everything else
+      of `TraceS` — non-S faces, gate / non-degeneracy / right neighbour of S, the full `EvOK`, the event clause — is proved from
+      the run, `EncTraceS.traceS_base_of_run`, `events_of_run`), `hn` and `hflags` (no interior start face);
+    * DECODER side, all DECIDABLE statements about the pure decoder states (discharged by kernel evaluation on instances):
+      `hG : GuardsS` at every symbol (`DecSim.GuardsSD` is its decidable form; the E / R / L checks are derived from the trace
+      when `3·faces ≤ vertex bound`, `guardERL_of_inv`; the C checks and the S checks incl. the relabelling walk — `RelabelWalkOK`:
+      the swing-left walk from `Next(cornerB)` on the updated `opp` ends at the boundary within the fuel, never returns, and visits
+      exactly the corners of the merged vertex — are NOT derived), `hv` (the vertex bound `vc.size ≤ num_encoded_vertices +
+      num_split_symbols`; reduced to two invariants in `EbVcBoundS.lean`), `hcomp` (`CompactSpec`: the compaction renumbers
+      injectively; `Compact.compactCheck` is a sound decidable checker; general loop proof not done). -/
+theorem eb_connectivity_roundtrip_withS_boundary_partial (ch : ConnChoices) (pf : Faces) (conn : ConnEnc)
+    (h : encodeConnectivity ch false pf #[] = .ok conn)
+    (hnf : conn.processed.size ≤ 2 ^ 21)
+    (hnv : conn.ct.numVertices - conn.ct.numIsolated + conn.numSplitSymbols ≤ 3 * 2 ^ 21)
+    (hedge : 3 * conn.processed.size / 2 ≤
+      (conn.ct.numVertices - conn.ct.numIsolated) * (conn.ct.numVertices - conn.ct.numIsolated - 1) / 2)
+    (hsz2 : conn.processed.size ≤ conn.symbols.size + conn.symbols.size / 3)
+    (starts : List (Bool × Nat))
+    (hTr : DecSim.TraceS conn.ct conn.processed conn.symbols.toList.reverse conn.splits.toList.reverse starts)
+    (hn : conn.processed.size = conn.symbols.size)
+    (hflags : conn.startFaces.toList = List.replicate starts.length false)
+    (hG : ∀ j, j < conn.symbols.toList.reverse.length → DecSim.GuardsS conn.symbols.toList.reverse conn.splits.toList.reverse
+      conn.processed.size (conn.ct.numVertices - conn.ct.numIsolated + conn.numSplitSymbols) j)
+    (hv : (DecSim.StS conn.symbols.toList.reverse conn.splits.toList.reverse conn.processed.size
+      (conn.ct.numVertices - conn.ct.numIsolated + conn.numSplitSymbols) conn.symbols.toList.reverse.length).vc.size ≤
+        conn.ct.numVertices - conn.ct.numIsolated + conn.numSplitSymbols)
+    (hcomp : ∃ co, Compact.CompactSpec ⟨conn.processed.size, conn.ct.numVertices - conn.ct.numIsolated + conn.numSplitSymbols,
+        conn.symbols.toList.reverse.length, conn.splits.toList.reverse, true⟩
+      (DecSim.mainS conn.symbols.toList.reverse conn.splits.toList.reverse conn.processed.size
+        (conn.ct.numVertices - conn.ct.numIsolated + conn.numSplitSymbols))
+      (DecSim.startOf (DecSim.mainS conn.symbols.toList.reverse conn.splits.toList.reverse conn.processed.size
+        (conn.ct.numVertices - conn.ct.numIsolated + conn.numSplitSymbols))) co) :
+    ∃ mesh, Runs decodeConnectivity 514 ([0] ++ conn.bytes) mesh 514 ∧
+      ctIso conn.ct conn.processed mesh.numFaces mesh.c2v mesh.opp = true ∧
+      CTIso conn.ct conn.processed mesh.numFaces mesh.c2v mesh.opp ∧ mesh.atts.size = conn.atts.size := by
+  obtain ⟨mesh, h1, h2, h3⟩ := DecSim.eb_connectivity_roundtrip_withS_of_parts ch pf conn h hnf hnv hedge hsz2 starts hTr hn
+    hflags hG hv hcomp
+  exact ⟨mesh, h1, CTIsoComplete.ctIso_complete h2, h2, h3⟩
+
+/-- non-vacuity WITH a genuine topology split event, END TO END AT THE STREAM LEVEL: the annulus (3×3 quad grid minus the middle
+    quad, 16 faces; symbols contain S, one split event; the model's own run): the decoder's connectivity stage reads exactly
+    the encoder's bytes and rebuilds a corner table isomorphic to the encoder's.  Every hypothesis of the theorem is discharged
+    (`WithSLink.annLink`: `TraceS`, `GuardsS` via its decidable form, the vertex bound and the compaction check by kernel
+    evaluation on the run). -/
+example : DecSim.annConn.splits.size = 1 ∧
+    ∃ mesh, Runs decodeConnectivity 514 ([0] ++ DecSim.annConn.bytes) mesh 514 ∧
+      CTIso DecSim.annConn.ct DecSim.annConn.processed mesh.numFaces mesh.c2v mesh.opp :=
+  ⟨WithSLink.annLink.1, by obtain ⟨mesh, h1, h2, _⟩ := WithSLink.annLink.2; exact ⟨mesh, h1, h2⟩⟩
 
 end ConnectivityLink
 
